@@ -15,30 +15,12 @@
 -/
 import Acra.Lemmas.Chapter7Llp
 import Acra.Lemmas.Chapter7Len
+import Acra.Model.Chapter7NoOverflow
 namespace Acra.Lemmas.Chapter7
 open Acra.Py Acra.Model Acra.Model.Chapter7 Acra.Gen.Chapter7
 open Acra.Spec.Ch7 (offset startsAux)
 
-/-! ### NoLLPOverflow -/
-
-/-- `NoLLPOverflow`, as a computation over the encapsulation fold's state: whenever the fold reaches a
-    low-latency PTDP, its bytes (6 header bytes + payload) plus the 1-byte continuation marker fit in
-    the free space of the frame under construction -/
-def noLLPOverflowFrom (L sid : Nat) : List PTDP.State → PTFR.State × List PTFR.State → Bool
-  | [], _ => true
-  | p :: ps, st =>
-    (!p.low_latency || decide (p.payload.length + 6 + 1 + st.1.payload.length ≤ L)) &&
-    match encStep L sid st p with
-    | .ok st' => noLLPOverflowFrom L sid ps st'
-    | .error _ => false
-
-/-- each low-latency PTDP, with its continuation byte, fits in the free space of the frame it is
-    inserted into (decidable: a `Bool` computed along `datapkts_to_ptfr`) -/
-def NoLLPOverflow (pkts : List (Bytes × Bool)) (L sid : Nat) : Prop :=
-  noLLPOverflowFrom L sid (datapktsToPtdp pkts) (newPtfr L sid, []) = true
-
-instance (pkts : List (Bytes × Bool)) (L sid : Nat) : Decidable (NoLLPOverflow pkts L sid) := by
-  unfold NoLLPOverflow; exact inferInstance
+/- `NoLLPOverflow` / `noLLPOverflowFrom` are defined in Acra.Model.Chapter7NoOverflow (core Lean, also run by the driver). -/
 
 /-! ### offsets for arbitrary cuts -/
 
